@@ -174,3 +174,67 @@ class LnLOracle:
             verdicts[i] = ("violation", "marginal ln-likelihood differs from the closed-form Gaussian marginal "
                            f"(triggered findings {trig[i]} do not explain it)", float(ref0[i]), float(impl[i]))
         return verdicts
+
+
+# ---------------------------------------------------------------------------------------------
+def triggered_post(problem, theta_row):
+    tr = triggered(problem, theta_row)
+    pr = problem.prior
+    if pr["kind"] == "default":
+        from .ref import marginal
+
+        unc = marginal.var_K(theta_row[0], theta_row[1], pr["sigma_K0"], pr["P0"], pr["max_K"], cap=False)
+        unc3 = marginal.var_K(theta_row[0], theta_row[1], pr["sigma_K0"], pr["P0"] / pr.get("P_prior_unit_in_days", 1.0), pr["max_K"], cap=False)
+        if unc > pr["max_K"] ** 2 or unc3 > pr["max_K"] ** 2:
+            tr.append("K2")
+    return tr
+
+
+class PostOracle:
+    """Reference (a, A) of the conditional posterior with twin attribution."""
+
+    def __init__(self, problem, theta):
+        self.p = problem
+        self.theta = np.atleast_2d(np.asarray(theta, dtype=float))
+        self._ref = {}
+
+    def ref(self, twins=frozenset()):
+        twins = frozenset(twins)
+        if twins not in self._ref:
+            with np.errstate(all="ignore"):
+                a, A, Ainv = self.p.posterior(self.theta, twins=twins)
+                cond = np.array([np.linalg.cond(x) if np.all(np.isfinite(x)) else np.inf for x in Ainv])
+            self._ref[twins] = (a, A, cond)
+        return self._ref[twins]
+
+    @staticmethod
+    def close(a_i, A_i, a_r, A_r, cond):
+        if not (np.all(np.isfinite(a_i)) and np.all(np.isfinite(A_i))):
+            return False
+        tol = 1e-7 + 100 * 2.2e-16 * cond
+        sd = np.sqrt(np.abs(np.diag(A_r)))
+        if np.any(np.abs(a_i - a_r) > tol * (np.abs(a_r) + sd) + 1e-300):
+            return False
+        if np.any(np.abs(A_i - A_r) > tol * np.sqrt(np.outer(np.abs(np.diag(A_r)), np.abs(np.diag(A_r)))) + 1e-300):
+            return False
+        return True
+
+    def classify_row(self, i, mean, cov):
+        mean, cov = np.asarray(mean, dtype=float), np.asarray(cov, dtype=float)
+        a0, A0, c0 = self.ref()
+        if c0[i] > 1e13:
+            return ("untrusted",)
+        if self.close(mean, cov, a0[i], A0[i], c0[i]):
+            return ("pass",)
+        trig = triggered_post(self.p, self.theta[i])
+        if "K4" in trig and not (np.all(np.isfinite(mean)) and np.all(np.isfinite(cov))):
+            return ("known", ("K4",))
+        for r in range(1, len(trig) + 1):
+            for sub in itertools.combinations(trig, r):
+                if "K4" in sub:
+                    continue
+                a, A, c = self.ref(frozenset(sub))
+                if self.close(mean, cov, a[i], A[i], c[i]):
+                    return ("known", tuple(sub))
+        return ("violation", f"(mean, cov) handed to the generator differ from the conditional posterior N(a, A) (triggered findings {trig} do not explain it)",
+                (a0[i].tolist(), A0[i].tolist()), (mean.tolist(), cov.tolist()))
